@@ -237,6 +237,15 @@ def run_verus_property(pid, cfg, tier, seed, clock):
             suffix = "" if found.get("found") else " no-failing-input-found"
             violations.append(("verus", [{"tag": n} for n in new_fail], rpath, suffix))
 
+        native_cross = None
+        if tier == "thorough" and not only and not new_fail:
+            # bounded cross-check (NOT proof): executable forms of the proved postconditions and of
+            # the ASSUMED callee contracts on random short histories against the real code
+            import native_search
+            native_cross = native_search.search(pid, [], seed, log_dir)
+            if native_cross.get("found"):
+                undecided.append("native cross-check contradicts a contract that Verus accepts (an ASSUMED contract is wrong, "
+                                 "or the extracted text is not what runs): " + native_cross["failing_input"][:300])
         discharged = [n for n in names if n not in failed_names]
         known_names = set(k[0] for k in known)
         cov = {
@@ -253,6 +262,7 @@ def run_verus_property(pid, cfg, tier, seed, clock):
             "obligation_names": names,
             "samples": [{"obligation": o["name"], "clause": o["text"]} for o in obligations[:8]],
             "canary": "failed as required" if canary_failed else "NOT refuted",
+            "native_cross_check_bounded": native_cross,
         }
     finally:
         shutil.rmtree(work, ignore_errors=True)
